@@ -36,7 +36,8 @@ MANIFEST = {
             'tasks.  On the executor side every ending (success, failure, '
             'cancel before intake / during spawn / while running / racing the '
             'exit, timeout, launch error) must produce exactly one unschedule '
-            'publication per placed task.',
+            'publication per placed task.'
+            '  Second session: a placed task the executor never hands over and never releases is reported here too (placed-task-never-unscheduled); executor endings include death by signal and faults after the spawn.',
     'note': 'scheduler and executor are exercised separately here (their '
             'composition is exercised by C08/C05); executor histories use real '
             'threads and processes, reproduced statistically.'}
